@@ -168,7 +168,10 @@ def c06_runs(tier):
 
 def c07_runs(tier):
     q = tier == 'quick'
-    return per_method('mix', [0, 3] if q else [0, 1, 2, 3],
+    # descriptors with an error handler only (no bit in the epoll event mask), hang-ups and errors unknown
+    erronly = per_method('fd.err-only', [0, 1], ['fd.err-handler-ran'], K=1, R=3 if q else 4,
+                         acts=A_UNREG | A_SETH | A_REG, A=2, L=2 if q else 3, symtruth=2, patterns=5)
+    return erronly + per_method('mix', [0, 3] if q else [0, 1, 2, 3],
                       ['C07.returned-by-quit', 'C07.returned-when-empty', 'C07.register_try-fails'],
                       K=1, T=1, J=1, R=3, acts=A_UNREG | A_REG | A_TIMER | A_TASK | A_QUIT | A_TRY, A=1,
                       L=2 if q else 3, symtruth=0, patterns=2, faults=1, setup_actions=1) + [
@@ -199,7 +202,8 @@ def c05_runs(tier):
     if not q:
         for N in range(0, 11):
             r.append(timers_run('step.pair.N%d' % N, covers=['C05.step-register'], mode=1, N=N, sym=1))
-    for N in ([3, 4, 5, 15, 16, 17] if q else list(range(0, 67))):
+    # two-bit split: levels hold 4, 16, 64 entries
+    for N in ([3, 4, 5, 15, 16, 17] if q else list(range(0, 34)) + [62, 63, 64, 65, 66]):
         r.append(timers_run('step2bit.N%d' % N, two, covers=['C05.step-register'], mode=1, N=N, sym=3))
     for N in ([127, 128, 16383, 16384] if q else [126, 127, 128, 129, 130, 16382, 16383, 16384, 16385]):
         x = timers_run('boundary.N%d' % N, covers=['C05.boundary-register', 'C05.boundary-unregister'], mode=2, N=N)
@@ -240,6 +244,10 @@ def c17_runs(tier):
     # two pumps one after the other on the same thread (buffer cache): after errors with data buffered
     r.append(pump_run('splice.two-pumps', 4, ['pump.second-pump-on-same-thread', 'pump.done', 'pump.output-error'],
                       N=3, B=3, splice=1, relay=1, pipecap=3, pumps=2, eintr=0, eagain=1))
+    # the splice buffer (a pipe) can hold more than the read/write buffer size
+    r.append(pump_run('splice.two-pumps.deep-pipe', 2, ['pump.second-pump-on-same-thread', 'pump.done',
+                                                        'pump.output-error'],
+                      N=2, B=3, splice=1, relay=1, pipecap=3, pumps=2, eintr=0, eagain=1, err=1))
     r.append(pump_run('rw.two-pumps', 4, ['pump.second-pump-on-same-thread', 'pump.done'],
                       N=3, B=3, splice=0, relay=0, pumps=2, eintr=0, eagain=1))
     if not q:
@@ -251,7 +259,7 @@ def c17_runs(tier):
 
 def c20_runs(tier):
     q = tier == 'quick'
-    cv = ['inotify.delivered', 'inotify.dropped-before-handler', 'inotify.record-with-name',
+    cv = ['inotify.delivered', 'inotify.dropped-before-handler', 'inotify.record-with-name', 'inotify.record-with-longest-name',
           'inotify.unregister-self-in-handler', 'inotify.unregister-other-in-handler',
           'inotify.unregister-instance-in-handler', 'inotify.complete-run']
     src = ['harness/inotify.c'] + ENVSRC
@@ -299,6 +307,11 @@ def c08_runs(tier, hb=0):
     for m, nm in ((2, 'ppoll'), (3, 'poll'), (1, 'epoll')):
         r.append(mt_run('owner-fds-come-and-go.' + nm, 'harness/event.c', cv + ['event.owner-unregisters-a-descriptor'],
                         preempt=1 if q else 2, E=1, P=1, Q=1, method=m, twofds=1, hb=hb))
+    # the owner's very first event registration fails (no descriptor available), later ones succeed
+    # (raw-event transport only: with the epoll transport the library treats descriptor exhaustion as fatal)
+    for m, nm in ((2, 'ppoll'), (3, 'poll')):
+        r.append(mt_run('first-registration-fails.' + nm, 'harness/event.c', cv + ['C07.event-register-fails'],
+                        preempt=1 if q else 2, E=1, P=1, Q=1, method=m, regfail=2, hb=hb))
     # the owner posts and unregisters a still-pending event before its loop runs; a poster posts behind it
     for m, nm in ((1, 'epoll'), (2, 'raw')):
         r.append(mt_run('owner-pre-ops.' + nm, 'harness/event.c', cv + ['event.unregister-while-pending'],
@@ -352,6 +365,10 @@ def c10_runs(tier, hb=0):
          mt_run('seven-interests.all-orders', h, ['signal.registration-order-permuted', 'signal.fan-out-to-several',
                                                   'signal.quiescent'],
                 preempt=0, I=7, T=1, D=1, nflags=1, unreg=0, permute=1, hb=hb),
+         # four shared interests split over two signals in every way, registered in every order
+         mt_run('two-signals.all-splits-and-orders', h, ['signal.registration-order-permuted', 'signal.quiescent',
+                                                         'signal.fan-out-to-several'],
+                preempt=0, I=4, T=1, D=1, nflags=2, unreg=0, permute=1, twosigs=2, hb=hb),
          mt_run('concurrent-forks', h, ['signal.concurrent-forks', 'signal.handler-ran', 'signal.quiescent'],
                 preempt=2, I=1, T=1, D=1, forkers=1, nflags=1, unreg=0, hb=hb)]
     if not q:
@@ -365,6 +382,8 @@ def c11_runs(tier, hb=0):
     cv = ['wait.termination-delivered', 'wait.exit-code-delivered', 'wait.stop-or-continue-delivered',
           'wait.stranger-reaped', 'wait.quiescent', 'wait.unregister-in-handler']
     r = [mt_run('strangers', h, cv, preempt=1 if q else 2, C=3, strangers=1, events=3 if q else 4, ops=2, hb=hb),
+         mt_run('stranger-is-oldest', h, cv, preempt=1 if q else 2, C=3, strangers=1, events=3, ops=1, strangerfirst=1,
+                hb=hb),
          mt_run('spawn+kill', h, cv + ['wait.spawn-child-ran', 'wait.kill-forwarded', 'env.fork-child-copy-explored'],
                 preempt=2, C=2, strangers=1, events=3, spawn=1, kill=1, ops=2, hb=hb),
          mt_run('kill.poll', h, ['wait.termination-delivered', 'wait.kill-forwarded', 'wait.quiescent'],
@@ -426,6 +445,9 @@ def work_runs(tier, hb=0):
                preempt=p2, W=2, max=1, put=0, late=1, burst=1, hb=hb),
         mt_run('idle-timeout.coincides-with-submit', h, base + ['sched:simultaneous-timeouts', 'work.quiescent'],
                preempt=p2, W=2, max=1, put=0, late=1, lateat=11, burst=1, hb=hb),
+        mt_run('idle-timeout.coincides-with-put', h, base + ['sched:simultaneous-timeouts', 'work.pool-released',
+                                                             'work.loop-returned-and-everything-released'],
+               preempt=p2, W=1, max=1, put=3, lateat=11, burst=1, hb=hb),
         mt_run('continuation.put-late', h, base + ['work.continuation-from-worker', 'work.pool-released',
                                                    'work.two-items-in-parallel'],
                preempt=1 if q else 2, W=3, max=2, put=3, cont=1, burst=2, hb=hb),
@@ -492,6 +514,8 @@ def c15_runs(tier):
                     method=2))
     if not q:
         r.append(mt_run('two-loops.timerfd+pwait2-disappear', 'harness/mswitch.c', mcv, preempt=1, tfd=1, pwait2=1))
+    # eventfd absent: bursts of any size through the pipe fallback (the pending byte count is a solver unknown)
+    r += [x for x in c09_runs(tier) if x['name'].startswith('burst.unknown-size')]
     # pipe2 / splice
     r.append(pump_run('pump.no-splice-no-pipe2', 4, ['pump.done'], N=3, B=3, splice=0, relay=1, nopipe2=1))
     r.append(pump_run('pump.splice-no-pipe2', 4, ['pump.done'], N=3, B=3, splice=1, relay=1, nopipe2=1, pipecap=3))
@@ -512,6 +536,9 @@ def c18_runs(tier):
         r.append(x)
     # resource acquisition that fails half-way leaves nothing behind
     r += [x for x in work_runs(tier) if x['name'] == 'iv_thread.create-fails']
+    # nothing the library allocated is lost track of while loops are running (reachability at quiescence):
+    # status records queued for an interest that its handler unregisters
+    r += [x for x in c11_runs(tier) if x['name'] == 'two-loops.reaper-elsewhere']
     return r
 
 
